@@ -22,7 +22,7 @@ class Writer:
 
 def gen_attrs(rng, w, rich=True):
     attrs = []
-    for _ in range(rng.choice([0, 0, 1, 1, 2, 3])):
+    for _ in range(rng.choice([0, 0, 1, 1, 2, 3] * 5 + [6, 9, 14])):
         w.add(rng.choice([' ', ' ', '  ', '\n', '\t']))
         kind = rng.choice(['dq', 'dq', 'sq', 'unq', 'bool', 'expr', 'ng', 'class', 'class'])
         name = rng.choice(['id', 'data-x', 'href', 'title', ':bind', 'v-on:click', 'aria-label', 'xml:lang', '_x', 'a.b'])
@@ -41,7 +41,7 @@ def gen_attrs(rng, w, rich=True):
             w.add('=')
             if kind == 'class':
                 q = rng.choice(['"', '"', "'", ''])
-                body = rng.choice(['a', 'a b', 'foo  bar', ' a b ', 'a\tb\nc', '', 'x-1 y_2 z', 'a  ']) if q else rng.choice(['a', 'foo-bar'])
+                body = rng.choice(['a', 'a b', 'foo  bar', ' a b ', 'a\tb\nc', '', 'x-1 y_2 z', 'a  ', ' '.join('c%d' % k for k in range(rng.randint(5, 14)))]) if q else rng.choice(['a', 'foo-bar', 'item', 'a-very-long-class-name'])
                 val = q + body + q
             elif kind == 'dq':
                 val = '"%s"' % rng.choice(['a > b', '', 'x/y', '</div>', '<b>', "it's", 'a=b c', ' ', '/>', 'é ü', '{x}', '-->'])
